@@ -25,3 +25,18 @@ Definition c20_check (c : c20_case) : bool :=
   match c20_run l0 (c20_ops c) 0 with None => true | Some _ => false end &&
   forallb (fun p => Bool.eqb (interval_ok (c20_min c) (c20_max c) (fst p)) (snd p)) (c20_intervals c).
 Definition c20_diag (c : c20_case) : Z := match c20_run l0 (c20_ops c) 0 with None => -1 | Some k => Z.of_nat k end.
+
+(* event histories at the grain of single keep-alives (Inflight.v): what the observer logged must
+   be a history the lifecycle can produce *)
+From VP Require Import Inflight.
+Inductive c20_any := C20Life (c : c20_case) | C20Trace (evs : list iev).
+Definition c20_any_check (c : c20_any) : bool :=
+  match c with
+  | C20Life k => c20_check k
+  | C20Trace evs => match ifail false i0 evs 0 with None => true | Some _ => false end
+  end.
+Definition c20_any_diag (c : c20_any) : Z :=
+  match c with
+  | C20Life k => c20_diag k
+  | C20Trace evs => match ifail false i0 evs 0 with None => -1 | Some k => Z.of_nat k end
+  end.
